@@ -137,6 +137,16 @@ func (db *MultiBucketBackend) ListBucket(bucket string, prefix *gofakes3.Prefix,
 func (db *MultiBucketBackend) getBucketWithFilePrefixLocked(bucket string, prefixPath, prefixPart string) (*gofakes3.ObjectList, error) {
 	bucketPath := path.Join(bucket, prefixPath)
 
+	if prefixPath != "" && !validObjectKey(prefixPath) {
+		// No key has an empty, "." or ".." segment, and path.Join would resolve
+		// such a prefix to another directory (prefix "../" to the directory
+		// that holds every bucket).
+		if exists, _ := afero.DirExists(db.bucketFs, filepath.FromSlash(bucket)); !exists {
+			return nil, gofakes3.BucketNotFound(bucket)
+		}
+		return gofakes3.NewObjectList(), nil
+	}
+
 	dirEntries, err := afero.ReadDir(db.bucketFs, filepath.FromSlash(bucketPath))
 	if err != nil && prefixPath != "" {
 		// The prefix names a directory that does not exist (or a file): no key
